@@ -522,13 +522,44 @@ func c05R6(h H) {
 			if stopAtom(g) {
 				explained = true
 			}
-			if c, ok := g.Cond.(*ssa.Call); ok && !g.Pos {
-				if f := calleeFunc(&c.Call); f != nil && len(f.Blocks) > 0 {
-					if ok2, fs := falseMeansStop(f); ok2 {
-						explained = true
-					} else {
-						facts = append(facts, fs...)
+			callExplains := func(v ssa.Value) bool {
+				c, ok := v.(*ssa.Call)
+				if !ok {
+					return false
+				}
+				f := calleeFunc(&c.Call)
+				if f == nil || len(f.Blocks) == 0 {
+					return false
+				}
+				ok2, fs := falseMeansStop(f)
+				if !ok2 {
+					facts = append(facts, fs...)
+				}
+				return ok2
+			}
+			if !g.Pos && callExplains(g.Cond) {
+				explained = true
+			}
+			// a loop flag (`for retry := true; retry; { … retry = keepRetrying(err) }`): it is false only if one of
+			// the values assigned to it is, and each of those must be such a predicate's result
+			if ph, ok := g.Cond.(*ssa.Phi); ok && !g.Pos {
+				leaves, direct := phiLeaves(ph)
+				all := len(leaves)+len(direct) > 0
+				for _, lf := range leaves {
+					if c, isC := lf.V.(*ssa.Const); isC && c.Value != nil && c.Value.String() == "true" {
+						continue
 					}
+					if !callExplains(lf.V) {
+						all = false
+					}
+				}
+				for _, d := range direct {
+					if !callExplains(d) {
+						all = false
+					}
+				}
+				if all {
+					explained = true
 				}
 			}
 		}
